@@ -145,7 +145,14 @@ def run(prop, tier="quick", seed=0, write_baseline=False):
             undecided.append("class hierarchy: %s" % (e,))
     bounded = None
     if hasattr(mod, "bounded"):
-        bounded = mod.bounded(uni, tier, seed)     # dict(evaluations, distinct_nontrivial, rule, samples, failures=[...])
+        try:
+            bounded = mod.bounded(uni, tier, seed)     # dict(evaluations, distinct_nontrivial, rule, samples, failures=[...])
+        except Exception as e:      # noqa
+            if type(e).__name__ != "HarnessInapplicable":
+                raise
+            # the harness drives a private function of the repository with stub collaborators; changed code that reads
+            # state the stubs do not have cannot be judged by it (not a violation, not a pass)
+            undecided.append("bounded companion: %s" % (e,))
 
     # ---------------------------------------------------------------- verdicts
     failed = []
